@@ -33,7 +33,7 @@ func runC28(c *core.Ctx) error {
 		return err
 	}
 	defer l.Close()
-	bases, err := chooseBases(c, l, c.Pick(4, 7), c.Pick(3, 10), c.Pick(150, 400))
+	bases, err := chooseBases(c, l, 9, c.Pick(2, 10), c.Pick(150, 400))
 	if err != nil {
 		return err
 	}
